@@ -56,7 +56,7 @@ def floors(tier):
     return {"cases": 20000, "no_checker_cases": 3000, "with_checker_cases": 10000, "unknown_name_cases": 1000,
             "nonstring_builtin_cases": 2000, "custom_return_cases": 300, "listed_raise_cases": 100,
             "unlisted_raise_cases": 1000, "subclass_raise_cases": 100, "format_errors_seen": 2000, "nested_cases": 3000, "stateful_sequence_calls": 3000, "reregistration_cases": 60,
-            "raise_cases_under_applicators": 1000}
+            "raise_cases_under_applicators": 1000, "metaschema_format_cases": 200}
 
 
 def wrappers(d, fmt):
@@ -354,6 +354,61 @@ def reregistration_cases(ctx, d):
                         ctx.violation("listed-exception-no-error", dict(case, via=how), "got %r" % (got,))
 
 
+BAD_REGEXES = ["(unclosed", "[", "a{2,1}", "*a", "(?P<x", "\\", "(?<!a+)b", "a**", "(?z)", ")", "\\p{L}x(", "(?P<n>a)(?P<n>b)"]
+
+
+def metaschema_formats_without_checker(ctx, d):
+    """Nobody supplied a format checker: the `format` keywords the METASCHEMAS carry (regex for pattern and, in drafts
+    6/7, patternProperties names; uri / uri-reference for ids) decide nothing either - through check_schema, through
+    jsonschema.validate() and for a user-made class whose metaschema uses `format`."""
+    from jsonschema import validators
+    cls = impl.CLS[d]
+    cands = []
+    for bad in BAD_REGEXES:
+        cands += [{"pattern": bad}, {"patternProperties": {bad: {}}}, {"properties": {"a": {"pattern": bad}}}, {"items": {"patternProperties": {bad: {"type": "null"}}}}]
+    cands += [{"$schema": "::not a uri::", "type": "object"}, {impl.IDKW[d]: "http://not a uri/%zz", "type": "object"}, {"format": "(unclosed"},
+              {"properties": {"a": {"$ref": "#/definitions/x y"}}, "definitions": {"x y": {}}}]
+    for cand in cands:
+        case = {"draft": d, "schema": cand, "no_format_checker": True}
+        ctx.case([d, "meta-format", cand])
+        ctx.count("cases")
+        ctx.count("metaschema_format_cases")
+        try:
+            cls.check_schema(cand)
+        except X.SchemaError as e:
+            if e.validator == "format":
+                ctx.violation("format-without-checker", dict(case, entry="check_schema"), "SchemaError from `format` in the metaschema: %s" % e.message[:100])
+            continue        # rejected for another reason: not this property's business
+        except Exception as e:
+            ctx.violation("raised", dict(case, entry="check_schema"), type(e).__name__)
+            continue
+        # instances that never reach the pattern: only check_schema could object
+        for inst in (12, None, [], [1], {}):
+            try:
+                jsonschema.validate(inst, cand, cls=cls)
+            except X.SchemaError as e:
+                ctx.violation("format-without-checker", dict(case, entry="validate", instance=inst), "SchemaError (%s): %s" % (e.validator, e.message[:100]))
+                break
+            except (X.ValidationError, X.RefResolutionError):
+                pass
+            except Exception as e:
+                if not isinstance(e, __import__("re").error):
+                    ctx.violation("raised", dict(case, entry="validate", instance=inst), type(e).__name__)
+                break
+    # a user-made dialect whose metaschema uses `format`
+    meta = {"properties": {"title": {"format": "ipv4"}, "x-when": {"format": "date"}, "pattern": {"format": "regex"}}}
+    D = validators.create(meta_schema=meta, validators=dict(cls.VALIDATORS), type_checker=cls.TYPE_CHECKER, id_of=cls.ID_OF)
+    for cand in ({"title": "not an address"}, {"x-when": "yesterday"}, {"pattern": "(unclosed"}, {"title": "127.0.0.1", "x-when": 5}):
+        ctx.count("metaschema_format_cases")
+        ctx.case([d, "meta-format-custom", cand])
+        for entry, fn in (("check_schema", lambda: D.check_schema(cand)), ("validate", lambda: jsonschema.validate(3, cand, cls=D))):
+            try:
+                fn()
+            except Exception as e:
+                ctx.violation("format-without-checker", {"draft": d, "schema": cand, "custom_metaschema": meta, "entry": entry},
+                              "%s: %s" % (type(e).__name__, str(e)[:100]))
+
+
 def run(ctx):
     impl.quiet()
     checkers = {"none": None, "FormatChecker()": jsonschema.FormatChecker()}
@@ -368,6 +423,7 @@ def run(ctx):
     for d in impl.DRAFTS:
         idx += 1
         if ctx.mine(idx):
+            metaschema_formats_without_checker(ctx, d)
             custom_cases(ctx, rr, d)
             for _ in range(6):
                 stateful_sequences(ctx, rr, d)
